@@ -11,6 +11,8 @@ import PsutilModel.Proofs.C19
 import PsutilModel.Proofs.C19Battery
 import PsutilModel.Proofs.C19Cpu
 import PsutilModel.Proofs.C19Text
+import PsutilModel.Proofs.C19Cores
+import PsutilModel.Proofs.C19Ext
 import PsutilModel.Model.C19Gen
 namespace Psutil.C19
 open Spec
@@ -232,6 +234,31 @@ theorem C19_none_when_absent_temps (t : TempTree) (h1 : (hwmonSensors t.chips).i
   cases hf
   exact hr
 
+/-- **Fallback iff hwmon lists nothing.** The thermal zones have an influence on the result (some
+    choice of zones changes it) exactly when /sys/class/hwmon lists no `temp*_*` file in either
+    nesting and the coretemp platform glob matches nothing. -/
+theorem C19_fallback_iff (t : TempTree) :
+    (∀ zs, sensorsTemperatures cfg { t with zones := zs } = sensorsTemperatures cfg t)
+      ↔ ((hwmonSensors t.chips).isEmpty = false ∨ t.coretempFiles ≠ 0) := by
+  constructor
+  · intro h
+    by_cases h1 : (hwmonSensors t.chips).isEmpty = false
+    · exact Or.inl h1
+    · by_cases h2 : t.coretempFiles = 0
+      · exfalso
+        have h1' : (hwmonSensors t.chips).isEmpty = true := by simpa using h1
+        have e0 := C19_none_when_absent_temps { t with zones := [] } h1' h2 rfl
+        obtain ⟨rows, hr, hf⟩ := C19_fallback_to_zones { t with zones := [goodZone] } h1' h2
+        obtain ⟨w, hw⟩ := goodZone_row
+        simp only [List.filterMap_cons, hw, List.filterMap_nil] at hf
+        rw [h [], ← h [goodZone], hr] at e0
+        cases hf with
+        | cons _ _ => cases e0
+      · exact Or.inr h2
+  · intro h zs
+    rw [C19_missing_reading_skipped_never_fails t h]
+    exact C19_missing_reading_skipped_never_fails { t with zones := zs } h
+
 /-- non-vacuity: a tree with one chip, one readable sensor and a junk sensor; a zone set that meets
     the hypothesis of `C19_zone_thresholds` -/
 example : ∃ c s, (hwmonRow c s).isSome ∧ ∃ s', s'.listed = true ∧ hwmonRow c s' = none :=
@@ -331,6 +358,80 @@ theorem C19_secsleft_rules (n p m : Int) (hp : p ≠ 0) :
 /-- alternative file names: the first readable one wins, as an integer -/
 theorem C19_alternatives (a b : FileState) : mvOf (multiBcat [a, b]) = altInt a b := mvOf_multi2 a b
 
+/-- **alternative file names, clause by clause** (`energy_now`|`charge_now`, `power_now`|`current_now`,
+    `energy_full`|`charge_full`, `AC0/online`|`AC/online`; the order is a translator fact checked by
+    `cfg_good`): a readable first file wins whatever the second holds; an absent/unreadable first
+    file gives the second; both absent/unreadable → no value -/
+theorem C19_alternatives_rules (x y : Int) (f g : FileState) (hf : f.readOpt = none) :
+    mvOf (multiBcat [.content (kernelInt x), g]) = some (some x) ∧
+    mvOf (multiBcat [f, .content (kernelInt y)]) = some (some y) ∧
+    (g.readOpt = none → multiBcat [f, g] = none) := by
+  refine ⟨?_, ?_, ?_⟩
+  · rw [mvOf_multi2, altInt_first]
+  · rw [mvOf_multi2, altInt_second f hf]; simp [fileInt, FileState.readOpt, pyInt_kernelInt]
+  · intro hg; simp [multiBcat, hf, hg]
+
+/-- **plugged, clause by clause**: `AC0/online` when readable (1 = on mains), else `AC/online`,
+    else the battery's status text (`discharging` → False, `charging`/`full` → True, anything else
+    or no status → None) -/
+theorem C19_plugged_rules (ss : List Supply) (b : Supply) :
+    (∀ v, onlineOf ss bAC0 = .content (kernelInt v) → batPlugged cfg ss b = some (v == 1)) ∧
+    (∀ v, (onlineOf ss bAC0).readOpt = none → onlineOf ss bAC = .content (kernelInt v) →
+        batPlugged cfg ss b = some (v == 1)) ∧
+    ((onlineOf ss bAC0).readOpt = none → (onlineOf ss bAC).readOpt = none →
+        batPlugged cfg ss b =
+          (let st := lower (fileText b.status)
+           if st = bDischarging then some false else if st = bCharging ∨ st = bFull then some true else none)) := by
+  refine ⟨?_, ?_, ?_⟩
+  · intro v ho
+    rw [C19_plugged]
+    simp [pluggedOf, acOnline_eq, ho, altInt_first]
+  · intro v h0 ho
+    rw [C19_plugged]
+    simp only [pluggedOf, acOnline_eq, altInt_second _ h0, ho]
+    simp [fileInt, FileState.readOpt, pyInt_kernelInt]
+  · intro h0 h1
+    rw [C19_plugged]
+    simp only [pluggedOf, acOnline_eq, altInt_second _ h0, fileInt, h1, Option.map_none]
+
+/-- **end to end**: first battery with readable integer now / full / power figures (under either
+    file name) and no `time_to_empty_now`: percent = now/full·100 (0 when full = 0); seconds left =
+    UNLIMITED (-2) on mains, UNKNOWN (-1) when power = 0, else now/power·3600 truncated -/
+theorem C19_battery_kernel (p : PowerTree) (b : Supply) (n f pw : Int) (hd : p.dirExists = true)
+    (hb : firstBattery p.supplies = some b)
+    (h1 : altInt b.energyNow b.chargeNow = some (some n))
+    (h2 : altInt b.energyFull b.chargeFull = some (some f))
+    (h3 : altInt b.powerNow b.currentNow = some (some pw))
+    (h4 : b.timeToEmpty.readOpt = none) :
+    sensorsBattery cfg p = .ok (some
+      { percent := if f = 0 then 0 else 100 * (n : Rat) / (f : Rat)
+        secsleft := if pluggedOf p.supplies b = some true then -2
+                    else if pw = 0 then -1 else truncRat ((n : Rat) / (pw : Rat) * 3600)
+        plugged := pluggedOf p.supplies b }) := by
+  apply C19_battery_refines
+  simp [battery, hd, hb, h1, h2, h3, fileInt, h4, percentOf, secsleftOf]
+
+
+/-- non-vacuity of `C19_battery_kernel` / `C19_plugged_rules`: a discharging BAT0 next to an AC0 adapter -/
+def exBat : Supply :=
+  { name := [66, 65, 84, 48], energyNow := .content (kernelInt 30000), chargeNow := .absent
+    powerNow := .absent, currentNow := .content (kernelInt 15000), energyFull := .content (kernelInt 60000)
+    chargeFull := .unreadable, timeToEmpty := .absent, capacity := .absent
+    status := .content [68, 105, 115, 99, 104, 97, 114, 103, 105, 110, 103, 10], online := .absent }
+
+def exAC0 (v : Int) : Supply :=
+  { exBat with name := bAC0, online := .content (kernelInt v) }
+
+example : firstBattery [exAC0 0, exBat] = some exBat ∧
+    altInt exBat.energyNow exBat.chargeNow = some (some 30000) ∧
+    altInt exBat.energyFull exBat.chargeFull = some (some 60000) ∧
+    altInt exBat.powerNow exBat.currentNow = some (some 15000) ∧
+    onlineOf [exAC0 0, exBat] bAC0 = .content (kernelInt 0) ∧
+    (onlineOf [exBat] bAC0).readOpt = none ∧ (onlineOf [exBat] bAC).readOpt = none ∧
+    lower (fileText exBat.status) = bDischarging :=
+  ⟨rfl, altInt_first _ _, altInt_first _ _, by rw [altInt_second _ rfl]; exact altInt_first _ .absent,
+   rfl, rfl, rfl, by decide⟩
+
 example : ∃ p v, battery p = some v := ⟨{ dirExists := true, supplies := [] }, none, by decide⟩
 
 /-! ## cpu_freq -/
@@ -406,6 +507,122 @@ theorem C19_cpu_count_stat_rows (t : CountTree) (r : StatRec) (ci : Bytes) (h1 :
   cases hz : r.cpus.length with
   | zero => simp
   | succ k => simp; split <;> rfl
+
+/-- **Physical cores, refinement.** Whenever the specification determines the answer (every listed
+    topology file is readable; /proc/cpuinfo in kernel format when there is no topology file),
+    `cpu_count(logical=False)` returns exactly it. -/
+theorem C19_cpu_count_cores_refines (t : CountTree) (blocks : List CpuBlock) (v : Option Int)
+    (hci : topologyFiles t = [] → t.cpuinfo = .content (renderCpuinfo blocks))
+    (h : countCores t blocks = some v) : cpuCount false t = .ok v :=
+  cpuCountCores_refines t blocks v hci h
+
+/-- **Topology files, either source**: any number of CPU directories with readable
+    `core_cpus_list` files (or, when the kernel has none under that name, `thread_siblings_list`):
+    the result is the number of DISTINCT (stripped) lists — never None, never the cpuinfo fallback. -/
+theorem C19_cpu_count_cores_topology (t : CountTree)
+    (hall : (topologyFiles t).all (fun f => f.readOpt.isSome) = true) (hne : topologyFiles t ≠ []) :
+    cpuCount false t = .ok (some (distinctCount ((topologyFiles t).map fileText) : Int)) ∧
+    (t.coreCpus ≠ [] → topologyFiles t = t.coreCpus) ∧ (t.coreCpus = [] → topologyFiles t = t.siblings) := by
+  refine ⟨?_, ?_, ?_⟩
+  · apply cpuCountCores_refines t [] _ (fun h => absurd h hne)
+    have hd : distinctCount ((topologyFiles t).map fileText) ≠ 0 := by
+      intro h
+      have := (distinctCount_eq_zero _).mp h
+      exact hne (by simpa using this)
+    simp only [countCores, hall, if_true, ne_eq, hd, not_false_eq_true, countOut]
+    have : ¬ ((distinctCount ((topologyFiles t).map fileText) : Int) < 1) := by omega
+    simp [this]
+  · intro h; cases hc : t.coreCpus with
+    | nil => exact absurd hc h
+    | cons a as => simp [topologyFiles, hc]
+  · intro h; simp [topologyFiles, h]
+
+/-- **Kernel-format topology**: for ANY assignment `coreOf` of n ≥ 1 logical CPUs to cores, with
+    the sibling list of every CPU printed in the kernel's cpulist format (`0-1`, `0,4`, `2-3,6-7` …)
+    under the new or the deprecated file name, the result is the number of distinct cores. -/
+theorem C19_cpu_count_cores_kernel (coreOf : List Nat) (hne : coreOf ≠ []) (t : CountTree)
+    (h : t.coreCpus = kernelTopology cpuList coreOf ∨
+         (t.coreCpus = [] ∧ t.siblings = kernelTopology cpuList coreOf)) :
+    cpuCount false t = .ok (some (distinctCount coreOf : Int)) := by
+  have hk : kernelTopology cpuList coreOf ≠ [] := by
+    cases coreOf with
+    | nil => exact absurd rfl hne
+    | cons c cs => simp [kernelTopology]
+  have hfiles : topologyFiles t = kernelTopology cpuList coreOf := by
+    rcases h with h | ⟨h1, h2⟩
+    · unfold topologyFiles
+      rw [h]
+      cases hc : kernelTopology cpuList coreOf with
+      | nil => exact absurd hc hk
+      | cons a as => simp
+    · simp [topologyFiles, h1, h2]
+  have := (C19_cpu_count_cores_topology t (by rw [hfiles]; exact kernelTopology_readable _ _)
+    (by rw [hfiles]; exact hk)).1
+  rw [this, hfiles, kernelTopology_distinct cpuList cpuList_noWs cpuList_inj]
+
+/-- **Fallback**: no topology file at all → the packages of a kernel-format /proc/cpuinfo: the sum
+    over the distinct `physical id`s of that package's `cpu cores` (any number of blocks/packages);
+    None when that is 0 -/
+theorem C19_cpu_count_cores_cpuinfo (t : CountTree) (blocks : List CpuBlock) (h1 : t.coreCpus = [])
+    (h2 : t.siblings = []) (h3 : t.cpuinfo = .content (renderCpuinfo blocks)) :
+    cpuCount false t = .ok (countOut (coresOf blocks)) := by
+  apply cpuCountCores_refines t blocks _ (fun _ => h3)
+  simp [countCores, topologyFiles, h1, h2, distinctCount]
+
+/-- no topology file and no package information → None -/
+theorem C19_cpu_count_cores_none (t : CountTree) (blocks : List CpuBlock) (h1 : t.coreCpus = [])
+    (h2 : t.siblings = []) (h3 : t.cpuinfo = .content (renderCpuinfo blocks)) (h0 : coresOf blocks = 0) :
+    cpuCount false t = .ok none := by
+  rw [C19_cpu_count_cores_cpuinfo t blocks h1 h2 h3, h0]
+  rfl
+
+/-- the specification's package sum, spelled out: when every block of package p shows
+    `cpu cores : c p` (what the kernel prints), it is Σ over the distinct physical ids of `c p` -/
+theorem C19_cores_packages (blocks : List CpuBlock) (c : Nat → Nat)
+    (h : ∀ b ∈ blocks, b.cores = c b.physicalId) :
+    coresOf blocks = (((blocks.map (·.physicalId)).eraseDups).map fun p => (c p : Int)).foldl (· + ·) 0 := by
+  unfold coresOf
+  simp only []
+  congr 1
+  apply List.map_congr_left
+  intro p hp
+  have hp' : p ∈ blocks.map (·.physicalId) := List.mem_eraseDups.mp hp
+  obtain ⟨b0, hb0, hb0p⟩ := List.mem_map.mp hp'
+  cases hl : (blocks.filter (·.physicalId == p)).getLast? with
+  | none =>
+    rw [List.getLast?_eq_none_iff] at hl
+    have : b0 ∈ blocks.filter (·.physicalId == p) := List.mem_filter.mpr ⟨hb0, by simp [hb0p]⟩
+    rw [hl] at this
+    cases this
+  | some b =>
+    have hb := List.mem_of_getLast? hl
+    rw [List.mem_filter] at hb
+    have hbp : b.physicalId = p := by simpa using hb.2
+    simp [h b hb.1, hbp]
+
+example : coresOf [⟨0, 2400, 0, 0, 2⟩, ⟨1, 2400, 0, 1, 2⟩, ⟨2, 2400, 0, 0, 2⟩, ⟨3, 2400, 0, 1, 2⟩] = 4 := by decide
+example : distinctCount [0, 0, 1, 1, 5] = 3 ∧ (kernelTopology cpuList [0, 1, 0, 1]).length = 4 := by decide
+
+/-- **Logical CPUs, all three sources in one statement**, on kernel-format text of both files:
+    sysconf, else the `processor` blocks of /proc/cpuinfo, else the `cpuN` rows of /proc/stat;
+    None when the count is not at least 1 -/
+theorem C19_cpu_count_logical_refines (t : CountTree) (blocks : List CpuBlock) (r : StatRec)
+    (h2 : t.cpuinfo = .content (renderCpuinfo blocks)) (h4 : t.stat = .content (renderStat r)) :
+    cpuCount true t = .ok (countLogical t.sysconf blocks r) := by
+  cases hs : t.sysconf with
+  | some n => simpa [countLogical] using C19_cpu_count_sysconf t n hs
+  | none =>
+    cases hb : blocks with
+    | nil =>
+      subst hb
+      have h3 : countWhere (fun l => kProcessor.isPrefixOf (lower l)) (linesOf (renderCpuinfo [])) = 0 := by
+        rw [linesOf_renderCpuinfo]; rfl
+      simpa [countLogical] using C19_cpu_count_stat_rows t r _ hs h2 h3 h4
+    | cons b bs =>
+      rw [hb] at h2
+      have := C19_cpu_count_cpuinfo t (b :: bs) hs h2 (by simp)
+      rw [this]
+      simp [countLogical, countOut]
 
 /-- **cpu_stats**: ctxt, first number of `intr`, first number of `softirq` of a kernel-format /proc/stat -/
 theorem C19_cpu_stats (r : StatRec) :
